@@ -131,6 +131,8 @@ func (l *lexer) nextToken() token {
 
 // tokenize kicks things off.
 func (l *lexer) tokenize() {
+	verifLexStart()
+	defer verifLexExit()
 	for l.state = lexData; l.state != nil; {
 		l.state = l.state(l)
 	}
@@ -144,6 +146,7 @@ func newLexer(input io.Reader) *lexer {
 }
 
 func (l *lexer) next() (val string) {
+	verifLexStep()
 	if l.pos >= len(l.input) {
 		val = delimEOF
 
@@ -169,6 +172,7 @@ func (l *lexer) peek() string {
 // emit will create a token with a value starting from the last emission
 // until the current cursor position.
 func (l *lexer) emit(t tokenType) {
+	verifLexStep()
 	val := ""
 	if l.pos <= len(l.input) {
 		val = l.input[l.start:l.pos]
@@ -193,6 +197,7 @@ func (l *lexer) emit(t tokenType) {
 }
 
 func (l *lexer) errorf(format string, args ...interface{}) stateFn {
+	verifLexStep()
 	tok := token{fmt.Sprintf(format, args...), tokenError, Pos{l.line, l.offset}}
 	l.tokens <- tok
 
